@@ -449,6 +449,9 @@ func (p *Proof) ProvesStatement(sign int, factor uint, bound *big.Int) bool {
 		return false
 	}
 	if len(p.Cs) == 3 {
+		if factor > math.MaxUint/4 {
+			return false // factor*4 would wrap around and compare equal to a small p.A
+		}
 		factor *= 4
 		bound = new(big.Int).Mul(bound, big.NewInt(4))
 		bound.Sub(bound, big.NewInt(2))
